@@ -118,6 +118,10 @@ LAYOUT_OPERANDS = (
     ('stmt', 'a'), ('stmt', 'a  # c'), ('stmt', 'a = b'), ('stmt', 'if a: b'), ('exec', 'a\nb'), ('exec', 'a'), ('exec', '# c\na  # d\n'), ('exec', ''), ('eval', 'a'), ('single', 'a'),
     ('stmt', '(a,\n b)'), ('stmt', 'import a, b'), ('stmt', 'from a import b, c'), ('stmt', 'with a, b: pass'), ('stmt', 'del a, b'), ('stmt', 'global a, b'),
     ('boolop', 'and'), ('operator', '+'), ('unaryop', 'not'), ('cmpop', 'is not'),
+    # long chains: conversions that rebuild a chain element by element (dotted names <-> Attribute chains, MatchOr <-> BinOp) must keep the
+    # order for any length, not only for the 1 - 3 components of the short operands above
+    ('alias', 'a.b.c.d.e'), ('Import_name', 'a.b.c.d'), ('_aliases', 'a.b.c.d.e, f.g.h.i, j'), ('_Import_names', 'a.b.c.d.e.f, g.h.i.j as k'), ('expr', 'a.b.c.d.e'),
+    ('pattern', 'a.b.c.d.e'), ('pattern', 'a | b | c | d | e'), ('expr', 'a | b | c | d | e'), ('pattern', 'm.n.C(a.b.c.d, k=e.f.g.h)'), ('expr', 'a.b.c.d, e.f.g.h.i'),
 )
 
 
